@@ -409,6 +409,21 @@ static std::string runOp(World& w, const std::vector<std::string>& a, DOMNode*& 
     if (op == "eq") { DOMNode* n = w.node(A(1)); DOMNode* m = w.node(A(2)); if (!n || !m) throw std::string("bad:null"); return rInt(n->isEqualNode(m) ? 1 : 0); }
     if (op == "cmp") { DOMNode* n = w.node(A(1)); DOMNode* m = w.node(A(2)); if (!n || !m) throw std::string("bad:null"); return rInt(n->compareDocumentPosition(m)); }
     if (op == "sid") { asEl(w.node(A(1)))->setIdAttribute(S(A(2)).c(), A(3) == "1"); return "ok"; }
+    if (op == "sidn") { asEl(w.node(A(1)))->setIdAttributeNode(asAttr(w.node(A(2))), A(3) == "1"); return "ok"; }
+    if (op == "sidns") { asEl(w.node(A(1)))->setIdAttributeNS(S(A(2)).c(), S(A(3)).c(), A(4) == "1"); return "ok"; }
+    if (op == "idbulk") {
+        // n elements with a user-determined ID attribute "<prefix><i>" under a holder element that is never entered into the
+        // table of live nodes (they fill the document's ID table: collisions, "once used" markers, table growth)
+        DOMDocument* d = asDoc(w.node(A(1))); long n = atol(A(2).c_str()); std::string pre = A(3);
+        DOMElement* holder = d->createElement(X("holder").c());
+        for (long i = 0; i < n; i++) {
+            DOMElement* e = d->createElement(X("h").c());
+            e->setAttribute(X("id").c(), U(pre + std::to_string(i)).c());
+            e->setIdAttribute(X("id").c(), true);
+            holder->appendChild(e);
+        }
+        return "ok";
+    }
     if (op == "gid") { return rNode(w, asDoc(w.node(A(1)))->getElementById(S(A(2)).c()), ret); }
     // ---- views: node iterator
     if (op == "cit" || op == "ctw") {
@@ -472,6 +487,7 @@ static std::string runOp(World& w, const std::vector<std::string>& a, DOMNode*& 
 static std::string hDom(const Req& r) {
     World w; std::string out;
     long ndocs = geti(r, "ndocs", 1); bool full = geti(r, "full", 0) != 0; bool views = geti(r, "views", 0) != 0;
+    std::vector<std::string> idq; if (r.count("ids")) idq = split(get(r, "ids"), '\n');
     DOMImplementation* impl = DOMImplementationRegistry::getDOMImplementation(X("Core").c());
 
     try {
@@ -521,6 +537,14 @@ static std::string hDom(const Req& r) {
             out += "S\t" + std::to_string(i) + "\t" + res + "\t" + (w.inv.empty() ? std::string("-") : w.inv) + b;
             std::string vs; if (views) { vs = viewState(w); snprintf(b, sizeof b, "\t%08x", crc32(vs)); out += b; }
             out += "\n";
+            if (!idq.empty()) {
+                // getElementById for the whole sample of ids on every document (compared per id with the model)
+                for (size_t di = 0; di < w.docs.size(); di++) {
+                    out += "G\t" + std::to_string(di);
+                    for (size_t q = 0; q < idq.size(); q++) { out += "\t"; out += w.ids(w.docs[di]->getElementById(U(idq[q]).c())); }
+                    out += "\n";
+                }
+            }
             if (full) { out += d; out += vs; }
         }
     }
